@@ -91,6 +91,7 @@ type pathState struct {
 	loopSel  map[string]*selSet   // dispatch decisions taken inside a loop body (reported, never used to prune)
 	fieldE   map[string]ast.Expr  // "x.f" -> the boolean condition stored in that field by a composite literal / assignment
 	fieldA   map[string]fieldAtom // "x.f" -> the same condition reduced to one atom / a constant (valid in any scope)
+	valT     map[string]types.Type // local -> the concrete type of the value an inlined helper returned for it
 }
 
 // fieldAtom: a stored boolean condition that is a constant on this path or a single atom.
@@ -279,6 +280,12 @@ func (s *pathState) clone() *pathState {
 			n.loopSel[k] = v
 		}
 	}
+	if len(s.valT) > 0 {
+		n.valT = map[string]types.Type{}
+		for k, v := range s.valT {
+			n.valT[k] = v
+		}
+	}
 	if len(s.fieldA) > 0 {
 		n.fieldA = map[string]fieldAtom{}
 		for k, v := range s.fieldA {
@@ -305,6 +312,7 @@ type tracer struct {
 	prims         map[string]string
 	inline        map[string]bool        // callees to inline
 	noAuto        func(name string) bool // framer methods that are deliberately not followed
+	appendWrites  bool                   // x = append(x, ...) on a byte slice local is recorded as write / writebyte on x
 	trackBuf      string                 // byte buffer whose appends / stores are recorded ("f.buf"), "" = off
 	trackVar      string                 // struct variable whose field assignments are recorded ("head"), "" = off
 	trackField    string                 // field name whose assignments (on any variable) are recorded, "" = off
@@ -811,6 +819,19 @@ func (tr *tracer) execStmt(fi *FuncInfo, s ast.Stmt, st *pathState) []*pathState
 						for i, l := range x.Lhs {
 							if id, ok := l.(*ast.Ident); ok {
 								delete(s2.alias, id.Name)
+								delete(s2.valT, id.Name)
+								if i < len(s2.retExprs) {
+									if callee := tr.p.Func(name); callee != nil {
+										if t := callee.Pkg.TypesInfo.TypeOf(s2.retExprs[i]); t != nil && !types.IsInterface(t) {
+											if _, isNilT := t.(*types.Basic); !isNilT {
+												if s2.valT == nil {
+													s2.valT = map[string]types.Type{}
+												}
+												s2.valT[id.Name] = t
+											}
+										}
+									}
+								}
 								if s2.rets[i].known {
 									s2.known[id.Name], s2.store[id.Name] = true, s2.rets[i].val
 								} else {
@@ -969,6 +990,12 @@ func (tr *tracer) execStmt(fi *FuncInfo, s ast.Stmt, st *pathState) []*pathState
 							rv = retVal{s2.store[id.Name], true}
 						case id.Name == "nil" && isNil(info, id):
 							rv = retVal{0, true}
+						}
+					} else if _, ok := re.(*ast.CompositeLit); ok {
+						rv = retVal{1, true} // a value, not nil
+					} else if u, ok := re.(*ast.UnaryExpr); ok && u.Op == token.AND {
+						if _, isLit := ast.Unparen(u.X).(*ast.CompositeLit); isLit {
+							rv = retVal{1, true}
 						}
 					} else if c, ok := re.(*ast.CallExpr); ok {
 						// a freshly built error is not nil
@@ -1680,6 +1707,32 @@ func (tr *tracer) recordBufOps(fi *FuncInfo, as *ast.AssignStmt, st *pathState) 
 	for i, l := range as.Lhs {
 		ls := strings.ReplaceAll(exprStr(l), " ", "")
 		rhs := ast.Unparen(as.Rhs[i])
+		if tr.appendWrites {
+			// x = append(x, y...) / append(x, b) / append(x, b1, b2) on a byte slice: the writes of a buffer
+			if c, ok := rhs.(*ast.CallExpr); ok && exprStr(c.Fun) == "append" && len(c.Args) >= 2 && isByteSlice(info.TypeOf(l)) {
+				if lid, isId := ast.Unparen(l).(*ast.Ident); isId && exprStr(ast.Unparen(c.Args[0])) == lid.Name {
+					it := TraceItem{Pos: as.Pos(), Fn: fi, Recv: st.resolve(lid.Name)}
+					switch {
+					case c.Ellipsis.IsValid() && len(c.Args) == 2:
+						it.Prim = "write"
+						it.Call = &ast.CallExpr{Fun: c.Fun, Args: []ast.Expr{c.Args[1]}, Lparen: c.Lparen, Rparen: c.Rparen}
+					case len(c.Args) == 2:
+						it.Prim = "writebyte"
+						it.Call = &ast.CallExpr{Fun: c.Fun, Args: []ast.Expr{c.Args[1]}, Lparen: c.Lparen, Rparen: c.Rparen}
+						if k, isK := constInt(info, c.Args[1]); isK {
+							it.Val, it.HasVal = k, true
+						}
+					default:
+						it.Prim = "write"
+						lit := &ast.CompositeLit{Type: &ast.ArrayType{Elt: ast.NewIdent("byte")}, Elts: c.Args[1:]}
+						it.Call = &ast.CallExpr{Fun: c.Fun, Args: []ast.Expr{lit}, Lparen: c.Lparen, Rparen: c.Rparen}
+					}
+					it.Arg = exprStr(it.Call.Args[0])
+					it.Args = []string{st.resolve(normAtom(it.Call.Args[0]))}
+					st.trace = append(st.trace, it)
+				}
+			}
+		}
 		if tr.trackBuf != "" {
 			// a local that carries the buffer while it is being built (hdr := append(f.buf[:0], ...); f.buf = append(hdr, ...))
 			isBufName := func(n string) bool { return n == tr.trackBuf || st.alias["buf:"+n] == tr.trackBuf }
